@@ -103,6 +103,10 @@ type c24rOp struct {
 	id  string
 	// reference: the result of the first execution of this call in the process
 	ref *c24rHeld
+	// refBroken: the call's own encoding does not decode back even when nothing else was called (a
+	// single-call defect, reported once under its own fingerprint and judged in detail by the
+	// round-trip sections); the end-of-sequence meaning check is then skipped for this call
+	refBroken bool
 }
 
 // c24rRender renders everything in h except the encoding (compared bytewise) into strings,
@@ -501,6 +505,9 @@ func c24rRunSequence(seq []*c24rOp, sessions []int, second *c24rSession, st *c24
 	}
 	// meaning: the retained encodings still decode back to what they were made from
 	for i, e := range held {
+		if e.op.refBroken {
+			continue
+		}
 		if m := c24rMeaning(e); m != "" {
 			return "retained-encoding-wrong", &c24Viol{"C24:retained-encoding-does-not-decode-back", fmt.Sprintf("sequence %s: the bytes returned by call %d (%q): %s", labels(len(seq)), i+1, c24rClip(e.enc), m)}
 		}
@@ -560,6 +567,21 @@ func c24rCanonicalBuild(r *ev.R) (intact, changed int, first *c24Viol) {
 	return intact, changed, first
 }
 
+// c24rRefViolation judges the reference execution of a call on its own (nothing retained yet):
+// an encoding that does not decode back here is a single-call defect with its own fingerprint.
+func c24rRefViolation(o *c24rOp) *c24Viol {
+	m := c24rMeaning(o.ref)
+	if m == "" {
+		return nil
+	}
+	o.refBroken = true
+	typ := "error-response"
+	if o.f != nil {
+		typ, _ = c24Carried(o.f)
+	}
+	return &c24Viol{"C24:menu-call-does-not-round-trip-" + o.dir + "-" + typ, fmt.Sprintf("%s alone: the bytes %q: %s", o.Label, c24rClip(o.ref.enc), m)}
+}
+
 // c24rSetup builds the menu and the second goroutine.
 func c24rSetup() ([]*c24rOp, map[string]*c24rOp, *c24rSession) {
 	ops := c24rOps()
@@ -591,10 +613,16 @@ func c24rRunReplay(r *ev.R, rf *ev.ReplayFile) {
 			seq = append(seq, o)
 		}
 		// as in the enumeration, every call has been made once before (reference results)
+		var refViol *c24Viol
 		for _, o := range ops {
 			o.ref = c24rExec(o)
+			if rv := c24rRefViolation(o); rv != nil && len(seq) == 1 && seq[0] == o {
+				refViol = rv
+			}
 		}
-		out, v = c24rRunSequence(seq, rp.Sessions, second, nil)
+		if out, v = c24rRunSequence(seq, rp.Sessions, second, nil); v == nil && refViol != nil {
+			out, v = "menu-call-broken", refViol
+		}
 	case "retention-canonical-build":
 		_, _, v = c24rCanonicalBuild(r)
 		out = "canonical-build"
@@ -644,8 +672,11 @@ func c24Retention(r *ev.R) {
 		if (o.Kind == c24rEncode || o.Kind == c24rErrResp) && (o.ref.enc == nil || o.ref.err != "") {
 			r.HarnessError("retention menu: %s does not encode: %s", o.Label, o.ref.err)
 		}
-		if o.Kind == c24rToFrame && (o.ref.frm == nil || o.ref.err != "") {
+		if o.Kind == c24rToFrame && o.ref.pan == "" && (o.ref.frm == nil || o.ref.err != "") {
 			r.HarnessError("retention menu: %s does not give a frame: %s", o.Label, o.ref.err)
+		}
+		if v := c24rRefViolation(o); v != nil {
+			r.Violation(ev.Violation{Fingerprint: v.fp, Message: v.msg, System: "retention-sequences", Replay: c24rReplay{Kind: "retention-sequence", Ops: []string{o.Label}}})
 		}
 	}
 	r.Guard("retention-menu-kinds", len(kinds) == 6 && len(ops) >= 30, "calls in the menu: %d, per kind %v", len(ops), kinds)
